@@ -7,6 +7,7 @@ set -uo pipefail
 here="$(cd "$(dirname "$0")/.." && pwd)"
 export here
 claimed=$(python3 -c "import json;print(' '.join(c['property_id'] for c in json.load(open('$here/MANIFEST.json'))['checks']))")
+[ -n "${CHECKS:-}" ] && claimed="$CHECKS"   # restrict to some checks (the results file is then not rewritten)
 export claimed
 filter="$*"
 one() {
@@ -35,5 +36,5 @@ for d in "$here"/benign/*/; do
 done
 tmpres=$(mktemp)
 printf '%s\n' "${list[@]}" | xargs -P "${JOBS:-6}" -I{} bash -c 'one "$@"' _ {} | tee -a "$tmpres"
-if [ -z "$filter" ]; then sort "$tmpres" > "$here/benign/RESULTS.tsv"; fi
+if [ -z "$filter" ] && [ -z "${CHECKS:-}" ]; then sort "$tmpres" > "$here/benign/RESULTS.tsv"; fi
 rm -f "$tmpres"
